@@ -39,6 +39,7 @@ class C34(Check):
     harness_src = "harness/h_obj.c"
     harness_cflags = ("-DBUILDING_PARSEC",)
     link_parsec = False      # parsec_object.c is compiled inside the harness (free() hooked, atomics yielding)
+    race = True              # also explore schedules in which every access to the reference-count word is a scheduling point
     level_text = ("(a) For EVERY class chain (any depth, any pattern of NULL constructors/destructors, any content of the fresh "
                   "allocation) the model of parsec_class_initialize (both loops, one block holding the two NULL-terminated arrays) "
                   "makes construction run exactly the non-NULL constructors base->derived and destruction exactly the non-NULL "
@@ -59,7 +60,9 @@ class C34(Check):
                   "Not modelled: concurrent lazy class initialisation (the class_lock double check; classes are initialised by the "
                   "creating thread here), PARSEC_DEBUG_PARANOID fields, hand-over of a reference from one thread to another after "
                   "the start (covered only as an initial distribution). int32 count: wrap written into the model, theorems assume "
-                  "references + retains < 2^31.")
+                  "references + retains < 2^31. Race exploration (search only, no proof): a second build (clang -fsanitize=thread "
+                  "+ tsanrt.c) makes every plain or atomic access to obj_reference_count a scheduling point and judges the "
+                  "observation (values RETURNED by parsec_obj_update, destructors, free) with the same oracle.")
     technique = ("Coq: structural induction over class chains for the array construction; invariant over an atomic-step model lifted "
                  "to all schedules (fold_left_inv). Controlled-schedule differential run (ucontext coroutines, macro-interposed "
                  "atomics, hooked free) of the real PARSEC_OBJ_NEW/RETAIN/RELEASE/CONSTRUCT/DESTRUCT against the extracted model")
@@ -178,6 +181,40 @@ class C34(Check):
                                                      " ".join(map(str, self.sched(r, ths)))))
         return out
 
+    def race_cases(self, cases):
+        # race exploration: plain accesses to obj_reference_count are scheduling points too (an update may
+        # take several steps), so the disciplined cases with >= 2 busy threads get new, longer schedules:
+        # pure round-robin, "everything but the last operation, then the last ones interleave", random
+        out, r = [], self.rng.fork()
+        for nt in range(2, 7):            # directed: nt threads drop the last nt references together
+            for fl in ("2 1 1 1 1", "1 0 1", "4 1 0 0 1 1 1 0 0"):
+                ths = [(1, [0])] * nt
+                out.append("%s | %s | | 1" % (fl, self.thr_txt(ths)))
+                out.append("%s | %s | %s | 1" % (fl, self.thr_txt(ths), " ".join(map(str, r.shuffle(range(nt)) * 2))))
+                ths = [(1, [1, 0, 0])] * nt
+                out.append("%s | %s | %s | 1" % (fl, self.thr_txt(ths), " ".join(map(str, r.shuffle(list(range(nt)) * 3)))))
+        for c in cases:
+            try:
+                D, cf, df, ths, sched, flag = parse_case(c)
+            except Exception:
+                continue
+            nt = len(ths)
+            if flag == 0 or sum(1 for _, o in ths if o) < 2:
+                continue
+            need = [len(o) + 1 for _, o in ths]
+            k = r.below(4)
+            if k == 0:
+                s = []
+            elif k == 1:
+                s = [t for t in range(nt) for _ in range(max(0, need[t] - 1))]
+                s += r.shuffle(list(range(nt)) * 3)
+            else:
+                s = [r.below(nt) for _ in range(r.range(nt, 3 * sum(need)))]
+            f = [x.strip() for x in c.split("|")]
+            f[2] = " ".join(map(str, s))
+            out.append(" | ".join(f))
+        return out
+
     # ------------------------------------------------------------------ bookkeeping
     def nontrivial_key(self, case):
         try:
@@ -205,8 +242,10 @@ class C34(Check):
         return d
 
     # ------------------------------------------------------------------ the property, on the implementation's observation
-    def judge(self, case, obs):
-        """returns (signature, message) or None"""
+    def judge(self, case, obs, race=False):
+        """returns (signature, message) or None.  race=True: the observation comes from the race-exploration
+        build, where the logged value is what parsec_obj_update RETURNED and the log order is the order of
+        the returns; only property-level facts are judged there (not the arithmetic of each returned value)"""
         try:
             D, cf, df, ths, sched, flag = parse_case(case)
         except Exception:
@@ -236,6 +275,9 @@ class C34(Check):
             return None            # no discipline, no promise: compared with the model only
         total = sum(h for h, _ in ths)
         nops = sum(len(o) for _, o in ths)
+        if destroys > 1 or ev.count("F") > 1:
+            return ("destroyed-twice", "the object was destroyed %d times (free logged %d times): %s"
+                    % (destroys, ev.count("F"), " ".join(ev)))
         # walk the event trace
         pos = [0] * len(ths)
         cur = total
@@ -261,7 +303,7 @@ class C34(Check):
                 o = ths[t][1][pos[t]]
                 pos[t] += 1
                 cur += 1 if o else -1
-                if v != cur:
+                if v != cur and not race:
                     return ("lost-update", "update %d of thread %d returned %d, the count of performed retains/releases gives %d: %s"
                             % (pos[t], t, v, cur, " ".join(ev)))
                 if v < 0:
@@ -299,6 +341,11 @@ class C34(Check):
         r = self.judge(case, obs)
         return r[1] if r else None
 
+    def race_oracle(self, case, obs):
+        r = self.judge(case, obs, race=True)
+        return r[1] if r else None
+
     def signature(self, case, obs):
-        r = self.judge(case, obs)
+        # the property-level verdict names the class of a failing input; the finer T-sched verdict otherwise
+        r = self.judge(case, obs, race=True) or self.judge(case, obs)
         return r[0] if r else "none"
